@@ -8,13 +8,23 @@ Theorem pipe_composes f l r ro vs ctx st :
   bind (eval f l ro vs ctx st) (fun ol => eval f r ro vs (fst ol) (snd ol)).
 Proof. reflexivity. Qed.
 
-(* `,` concatenates: LHS results, then RHS results, both on the same context *)
+(* `,` concatenates: LHS results, then RHS results, both on the same context -- unless both operands hand back
+   the very same list object ([union_mode], the recorded finding union-same-list) *)
+Definition ctx_empty (ctx : list ptr) : bool := match ctx with [] => true | _ => false end.
+
 Theorem union_appends f l r ro vs ctx st :
-  (returns_ctx l && returns_ctx r)%bool = false ->
+  union_mode (list_id (is_bound vs) true (ctx_empty ctx) l) (list_id (is_bound vs) true (ctx_empty ctx) r) = Some false ->
   eval (S f) (EUnion l r) ro vs ctx st =
   bind (eval f l ro vs ctx st) (fun ol =>
   bind (eval f r ro vs ctx (snd ol)) (fun or_ => Ok (fst ol ++ fst or_, snd or_))).
-Proof. intros H. cbn [eval]. rewrite H. reflexivity. Qed.
+Proof. intros H. cbn [eval]. unfold ctx_empty in H. rewrite H. reflexivity. Qed.
+
+(* when one operand builds a new list (every operator except `.`, `$x`, assignments, delete, and pipes /
+   empty bindings that end in those) the union always appends *)
+Lemma union_mode_fresh_r a : union_mode a fresh_id = Some false.
+Proof. unfold union_mode, fresh_id. cbn [snd]. destruct (snd a); reflexivity. Qed.
+Lemma union_mode_fresh_l b : union_mode fresh_id b = Some false.
+Proof. reflexivity. Qed.
 
 (* binary operators without short-circuit and without the empty-operand rule:
    for one input node, every LHS result is paired with every RHS result, LHS-major *)
